@@ -27,10 +27,18 @@ deriving DecidableEq, Repr
 
 def Src.str (s : Src) : String := s.net ++ ":" ++ s.path
 
+/-- `str.split(":")` on the characters -/
+def splitColon : List Char → List (List Char)
+  | [] => [[]]
+  | c :: cs =>
+    match splitColon cs with
+    | [] => [[]]
+    | h :: t => if c == ':' then [] :: h :: t else (c :: h) :: t
+
 /-- `source_net, source_path = source.split(":")` — anything but exactly one colon is a `ValueError` -/
 def parseSrc (s : String) : Option Src :=
-  match s.splitOn ":" with
-  | [n, p] => some ⟨n, p⟩
+  match splitColon s.toList with
+  | [n, p] => some ⟨String.ofList n, String.ofList p⟩
   | _ => none
 
 def parseAll : List String → Option (List Src)
@@ -81,7 +89,7 @@ def sortDesc (key : Src → Nat) : List Src → List Src
 def getSources (e : Env) (locs : List Src) : List Src := sortDesc (proximity e) (dedup locs)
 
 /-- `str.lstrip(":")` -/
-def lstripColon (s : String) : String := (s.dropWhile (· == ':')).toString
+def lstripColon (s : String) : String := String.ofList (s.toList.dropWhile (· == ':'))
 
 /-- `get_source_scope(source_path, source_params, own_params)` -/
 def sourceScope (e : Env) (s : Src) : String :=
